@@ -8,6 +8,10 @@ def run(ctx):
     n = derive_rules.c09(ctx)
     if ctx.tier == 'thorough':
         n += derive_rules.on_random(ctx, derive_rules.c09)
+    ctx.rules_run.append('NIL-PAIR: every type (built-in and corpus) whose Encode overrides is_nil and that implements Decode also overrides nil (else derived writers omit what derived readers require)')
+    from .. import load
+    k = derive_rules.nil_pair(ctx, load.program(derive_rules.CONFIG), ('mcv_schemas',)) + derive_rules.nil_pair(ctx, load.program('core-full'), ('minicbor',))
+    ctx.floor('NIL-PAIR', 'two-sided types', k, 150)
     ctx.rules_run.append('S-ERR: streams with a wrong/missing tag, an undeclared variant index or a missing mandatory field are rejected on every path')
     n += derive_rules.c09_errors(ctx)
     return 'Derived decoders were run abstractly over the derived encoders\' item streams for every corpus schema, variant and presence vector: %d cases.' % n
